@@ -40,11 +40,12 @@ type c15Exchange struct {
 }
 
 type c15Params struct {
-	Mode      string        `json:"mode"` // http | copy-tcp | copy-udp | dns
-	HostPort  bool          `json:"host_port"` // director host carries an explicit port
-	Port      int           `json:"port"`
-	Exchanges [][]c15Exchange `json:"exchanges"` // per client
-	Fault     string        `json:"fault,omitempty"` // refuse | close-mid-reply
+	Mode      string          `json:"mode"`      // http | copy-tcp | copy-udp | dns
+	HostPort  bool            `json:"host_port"` // director host carries an explicit port
+	Port      int             `json:"port"`
+	Port2     int             `json:"port2,omitempty"` // a second service instance on another port sharing the director
+	Exchanges [][]c15Exchange `json:"exchanges"`       // per client
+	Fault     string          `json:"fault,omitempty"` // refuse | close-mid-reply
 }
 
 func c15Config(p *c15Params) string {
@@ -57,8 +58,12 @@ func c15Config(p *c15Params) string {
 	if p.Mode == "copy-udp" || p.Mode == "dns" {
 		proto = "udp"
 	}
-	return baseConfig + fmt.Sprintf("\n[director.fwd]\ntype=\"forward\"\nhost=%s\n\n[service.p]\ntype=%s\ndirector=\"fwd\"\n\n[[port]]\nport=%s\nservices=[\"p\"]\n",
+	cfg := baseConfig + fmt.Sprintf("\n[director.fwd]\ntype=\"forward\"\nhost=%s\n\n[service.p]\ntype=%s\ndirector=\"fwd\"\n\n[[port]]\nport=%s\nservices=[\"p\"]\n",
 		tomlStr(host), tomlStr(typ), tomlStr(fmt.Sprintf("%s/%d", proto, p.Port)))
+	if p.Port2 != 0 {
+		cfg += fmt.Sprintf("\n[service.p2]\ntype=%s\ndirector=\"fwd\"\n\n[[port]]\nport=%s\nservices=[\"p2\"]\n", tomlStr(typ), tomlStr(fmt.Sprintf("%s/%d", proto, p.Port2)))
+	}
+	return cfg
 }
 
 func genC15(seed uint64, idx int, tier string) *Scenario {
@@ -70,9 +75,18 @@ func genC15(seed uint64, idx int, tier string) *Scenario {
 		sc.Faults = []string{"backend-" + p.Fault}
 	}
 	nc := r.Range(1, 3)
+	if r.Chance(0.3) {
+		// two service instances on different ports behind the one named director (that is how the server wires it)
+		p.Port2 = p.Port + 1 + r.Intn(3)
+		nc = r.Range(2, 4)
+	}
 	for c := 0; c < nc; c++ {
 		var exs []c15Exchange
-		a := Actor{Kind: "tcp", Name: fmt.Sprintf("c%d", c), Src: clientAddr(c), Dst: fmt.Sprintf("%s:%d", sensorIP, p.Port)}
+		dport := p.Port
+		if p.Port2 != 0 && (c == 1 || c > 1 && r.Chance(0.5)) {
+			dport = p.Port2
+		}
+		a := Actor{Kind: "tcp", Name: fmt.Sprintf("c%d", c), Src: clientAddr(c), Dst: fmt.Sprintf("%s:%d", sensorIP, dport)}
 		n := r.Range(1, 4)
 		switch p.Mode {
 		case "http":
@@ -108,13 +122,20 @@ func genC15(seed uint64, idx int, tier string) *Scenario {
 				if r.Chance(0.1) {
 					rbody += r.word(5000, 60000)
 				}
+				headLen := -1
 				if m == "HEAD" {
+					// a HEAD reply announces the length of the body a GET would have, and has none
 					rbody = ""
+					if r.Chance(0.6) {
+						headLen = r.Range(1, 5000)
+					}
 				}
 				var resp strings.Builder
 				fmt.Fprintf(&resp, "HTTP/1.1 %d %s\r\nServer: backend\r\nX-Tag: %s\r\n", []int{200, 404, 500, 201}[r.Intn(4)], "Status", tag)
 				if r.Chance(0.25) && m != "HEAD" {
 					fmt.Fprintf(&resp, "Transfer-Encoding: chunked\r\n\r\n%x\r\n%s\r\n0\r\n\r\n", len(rbody), rbody)
+				} else if headLen >= 0 {
+					fmt.Fprintf(&resp, "Content-Length: %d\r\n\r\n", headLen)
 				} else {
 					fmt.Fprintf(&resp, "Content-Length: %d\r\n\r\n%s", len(rbody), rbody)
 				}
@@ -179,7 +200,9 @@ func dnsQueryBytes(id uint16, name string) []byte {
 type c15Backend struct {
 	mu       sync.Mutex
 	streams  map[string][]byte // remote address -> bytes received (tcp)
+	port     map[string]int    // remote address -> port of the backend listener that accepted it
 	dgrams   [][]byte
+	dgPort   []int // backend port each datagram arrived on
 	accepted int
 	decoy    int
 }
@@ -198,7 +221,7 @@ func runC15(t *testing.T, sc *Scenario) Result {
 	var p c15Params
 	b, _ := json.Marshal(sc.Params)
 	json.Unmarshal(b, &p)
-	be := &c15Backend{streams: map[string][]byte{}}
+	be := &c15Backend{streams: map[string][]byte{}, port: map[string]int{}}
 	// responses by tag (http) in script order over all clients
 	respByTag := map[string]c15Exchange{}
 	for _, exs := range p.Exchanges {
@@ -219,9 +242,9 @@ func runC15(t *testing.T, sc *Scenario) Result {
 		// backend and decoy listeners (before boot, inside the bubble)
 		switch p.Mode {
 		case "http", "copy-tcp":
-			for _, ip := range []string{backendAddr, decoyAddr} {
-				ip := ip
-				l, err := n.ListenTCP(&net.TCPAddr{IP: net.ParseIP(ip), Port: p.Port}, "backend")
+			for _, ipp := range c15Listeners(&p) {
+				ip, lport := ipp.ip, ipp.port
+				l, err := n.ListenTCP(&net.TCPAddr{IP: net.ParseIP(ip), Port: lport}, "backend")
 				if err != nil {
 					w.Obs.BootErr = err.Error()
 					return
@@ -241,15 +264,16 @@ func runC15(t *testing.T, sc *Scenario) Result {
 						}
 						be.mu.Lock()
 						be.accepted++
+						be.port[c.RemoteAddr().String()] = lport
 						be.mu.Unlock()
 						go c15Serve(be, &p, respByTag, c)
 					}
 				}()
 			}
 		default:
-			for _, ip := range []string{backendAddr, decoyAddr} {
-				ip := ip
-				u, err := n.ListenUDPRemote(&net.UDPAddr{IP: net.ParseIP(ip), Port: p.Port})
+			for _, ipp := range c15Listeners(&p) {
+				ip, lport := ipp.ip, ipp.port
+				u, err := n.ListenUDPRemote(&net.UDPAddr{IP: net.ParseIP(ip), Port: lport})
 				if err != nil {
 					w.Obs.BootErr = err.Error()
 					return
@@ -268,6 +292,7 @@ func runC15(t *testing.T, sc *Scenario) Result {
 							continue
 						}
 						be.dgrams = append(be.dgrams, append([]byte(nil), buf[:k]...))
+						be.dgPort = append(be.dgPort, lport)
 						be.mu.Unlock()
 						if p.Fault == "close-mid-reply" {
 							continue // the backend never answers
@@ -296,16 +321,27 @@ func runC15(t *testing.T, sc *Scenario) Result {
 	}
 	site := p.Mode
 	// the proxy dials nothing but the configured backend
-	wantDial := fmt.Sprintf("%s:%d", backendAddr, p.Port)
+	wantDial := map[string]bool{fmt.Sprintf("%s:%d", backendAddr, p.Port): true}
+	if p.Port2 != 0 && !p.HostPort {
+		wantDial[fmt.Sprintf("%s:%d", backendAddr, p.Port2)] = true
+	}
 	for _, l := range obs.NetLog {
 		if i := strings.Index(l, " dial "); i >= 0 {
 			f := strings.Fields(l[i+6:])
-			if len(f) == 2 && f[1] != wantDial {
-				res.Violate("dial-to-foreign-address", site, fmt.Sprintf("the proxy dialled %s %s, the configured backend is %s", f[0], f[1], wantDial))
+			if len(f) == 2 && !wantDial[f[1]] {
+				res.Violate("dial-to-foreign-address", site, fmt.Sprintf("the proxy dialled %s %s, the configured backend is %v", f[0], f[1], sortedBoolKeys(wantDial)))
 				return res
 			}
 			res.probe("dials", 1)
 		}
+	}
+	// the backend port a client's traffic must arrive on: the configured one, or (host without port) the
+	// port of the connection being proxied
+	wantPort := func(ai int) int {
+		if p.HostPort {
+			return p.Port
+		}
+		return portOf(sc.Actors[ai].Dst)
 	}
 	be.mu.Lock()
 	defer be.mu.Unlock()
@@ -337,6 +373,14 @@ func runC15(t *testing.T, sc *Scenario) Result {
 				}
 			}
 			faulty := faulty || c15Relaxed(sc, obs, ai)
+			if !faulty && len(sent) > 0 {
+				for k, g := range be.streams {
+					if bytes.Equal(g, sent) && be.port[k] != wantPort(ai) {
+						res.Violate("relayed-to-wrong-backend-port", site, fmt.Sprintf("client %d connected to port %d; its stream arrived at the backend's port %d, want %d", ai, portOf(a.Dst), be.port[k], wantPort(ai)))
+						return res
+					}
+				}
+			}
 			if !found && !faulty {
 				res.Violate("stream-not-relayed-to-backend", site, fmt.Sprintf("client %d sent %d bytes; the backend received streams of %v bytes on %d connections, none equal", ai, len(sent), lens(got), be.accepted))
 				return res
@@ -398,6 +442,21 @@ func runC15(t *testing.T, sc *Scenario) Result {
 				return res
 			}
 			res.probe("datagram-clients-verified", 1)
+		}
+		if !faulty {
+			for ai, a := range sc.Actors {
+				for _, o := range a.Ops {
+					if o.K != "send" {
+						continue
+					}
+					for di, d := range be.dgrams {
+						if bytes.Equal(d, o.Bytes()) && be.dgPort[di] != wantPort(ai) {
+							res.Violate("relayed-to-wrong-backend-port", site, fmt.Sprintf("client %d sent to port %d; its datagram arrived at the backend's port %d, want %d", ai, portOf(a.Dst), be.dgPort[di], wantPort(ai)))
+							return res
+						}
+					}
+				}
+			}
 		}
 		if !faulty && !sameMultiset(be.dgrams, want) {
 			res.Violate("datagram-not-relayed-to-backend", site, fmt.Sprintf("clients sent %d datagrams %v, the backend received %d %v", len(want), lens(want), len(be.dgrams), lens(be.dgrams)))
@@ -613,7 +672,8 @@ func c15CheckHTTP(sc *Scenario, obs *Obs, p *c15Params, be *c15Backend, faulty b
 	site := "http"
 	// all requests the backend saw, by tag
 	seen := map[string]httpMsg{}
-	for _, s := range be.streams {
+	seenPort := map[string]int{}
+	for sk, s := range be.streams {
 		msgs, _ := parseRequests(s)
 		for _, m := range msgs {
 			parts := strings.Split(strings.SplitN(m.Target, "?", 2)[0], "/")
@@ -623,6 +683,7 @@ func c15CheckHTTP(sc *Scenario, obs *Obs, p *c15Params, be *c15Backend, faulty b
 					return
 				}
 				seen[parts[1]] = m
+				seenPort[parts[1]] = be.port[sk]
 			}
 		}
 	}
@@ -650,6 +711,14 @@ func c15CheckHTTP(sc *Scenario, obs *Obs, p *c15Params, be *c15Backend, faulty b
 					continue
 				}
 				res.Violate("request-not-relayed-to-backend", site, fmt.Sprintf("client %d: request %s %s never reached the backend (%d requests did); kernel log: %v", ai, m.Method, m.Target, len(seen), obs.NetLog))
+				return
+			}
+			wp := p.Port
+			if !p.HostPort {
+				wp = portOf(a.Dst)
+			}
+			if !faulty && seenPort[tag] != wp {
+				res.Violate("relayed-to-wrong-backend-port", site, fmt.Sprintf("client %d connected to port %d; request %s arrived at the backend's port %d, want %d", ai, portOf(a.Dst), tag, seenPort[tag], wp))
 				return
 			}
 			if got.Method != m.Method || got.Target != m.Target {
@@ -718,4 +787,30 @@ func c15CheckHTTP(sc *Scenario, obs *Obs, p *c15Params, be *c15Backend, faulty b
 		}
 	}
 	_ = synctest.Wait
+}
+
+type c15Listen struct {
+	ip   string
+	port int
+}
+
+// c15Listeners: backend and decoy on every port a client may be proxied to.
+func c15Listeners(p *c15Params) []c15Listen {
+	var out []c15Listen
+	for _, ip := range []string{backendAddr, decoyAddr} {
+		out = append(out, c15Listen{ip, p.Port})
+		if p.Port2 != 0 {
+			out = append(out, c15Listen{ip, p.Port2})
+		}
+	}
+	return out
+}
+
+func sortedBoolKeys(m map[string]bool) []string {
+	var ks []string
+	for k := range m {
+		ks = append(ks, k)
+	}
+	sort.Strings(ks)
+	return ks
 }
